@@ -50,7 +50,8 @@ RULE = (
     "a generated later state; "
     "after num_operations steps the schedule is complete and feasible; "
     "solver(instance) returns a complete feasible schedule with elapsed_time "
-    ">= 0 and solved_by == class name. Non-trivial: some state offered >=2 "
+    ">= 0 and solved_by == class name (also for a user subclass); "
+    "solve(instance, dispatcher) finishes a partially dispatched dispatcher. Non-trivial: some state offered >=2 "
     "available operations with different criterion values."
 )
 BUDGET = {"quick": 1500, "thorough": 10000}
@@ -74,13 +75,30 @@ def strategy(tier):
     # small duration ranges make ties between scores (and hence tie-breaking)
     # common
     inst = st.sampled_from([1, 2, 3, 9, 9]).flatmap(
-        lambda md: gen.instances(
-            max_jobs=6 if big else 5,
-            max_ops=5,
-            max_machines=5,
-            max_total=30 if big else 20,
-            max_duration=md,
-            benchmarks=("ft06",),
+        lambda md: gen.weighted(
+            (
+                5,
+                gen.instances(
+                    max_jobs=6 if big else 5,
+                    max_ops=5,
+                    max_machines=5,
+                    max_total=30 if big else 20,
+                    max_duration=md,
+                    benchmarks=("ft06",),
+                ),
+            ),
+            # many short jobs (ties between jobs with ids >= 8)
+            (
+                1,
+                gen.instances(
+                    min_jobs=9,
+                    max_jobs=12,
+                    max_ops=2,
+                    max_machines=4,
+                    max_total=24,
+                    max_duration=md,
+                ),
+            ),
         )
     )
     typed = st.tuples(
@@ -285,6 +303,35 @@ def check_case(case, ctx):
     ctx.check(d.schedule.is_complete(), "not-complete", f"incomplete after {n} steps")
     probs = feasible.problems(dur, mach, rows)
     ctx.check(not probs, "infeasible", f"{probs[:3]}")
+    # solve() handed a dispatcher on which part of the work is already done
+    n_pre = case["seed"] % (n + 1)
+    inst_pre = build_instance(inst)
+    d_pre = Dispatcher(inst_pre, solver.ready_operations_filter)
+    for jj, pp, mm2, _s, _e in m.order[:n_pre]:
+        d_pre.dispatch(inst_pre.jobs[jj][pp], mm2)
+    random.seed(case["seed"] + 2)
+    res = solver.solve(inst_pre, d_pre)
+    rows_pre = fp.schedule_rows(res)
+    ctx.check(
+        res.is_complete() and feasible.is_complete(dur, rows_pre),
+        "solve-with-dispatcher-incomplete",
+        f"solve(instance, dispatcher) with {n_pre} operations already dispatched returned an incomplete schedule",
+    )
+    probs = feasible.problems(dur, mach, rows_pre)
+    ctx.check(not probs, "solve-with-dispatcher-infeasible", f"{probs[:3]}")
+
+    # a user subclass of the solver records its own class name
+    class CustomRuleSolver(DispatchingRuleSolver):
+        pass
+
+    sub = CustomRuleSolver(solver.dispatching_rule, solver.machine_chooser, solver.ready_operations_filter)
+    random.seed(case["seed"] + 3)
+    sub_sched = sub(build_instance(inst))
+    ctx.check(
+        sub_sched.metadata.get("solved_by") == "CustomRuleSolver",
+        "solved_by",
+        f"subclass CustomRuleSolver recorded solved_by={sub_sched.metadata.get('solved_by')!r}",
+    )
     # direct call
     random.seed(case["seed"] + 1)
     instance2 = build_instance(inst)
